@@ -18,7 +18,7 @@ RULE = (
     "chunk iterable x storage mode x value columns. Oracle: the per-cell model tables; the independent schema "
     "validator per cell; HDF5 object addresses for the shared bin columns. Non-trivial = >=2 cells with different "
     "non-empty content. Distinct by sha1 of the canonical case."
-    " Also: a bin column stored in ONE cell after creation must not appear in other cells or at file level; cell keys spelled '/cells/<name>' (names starting with letters of 'cells/'); arguments equal to defaults left out; names with a leading or trailing blank beside the same name without it; per-cell tables out of order (inside rows only, or completely) with ensure_sorted=True."
+    " Also: a bin column stored in ONE cell after creation must not appear in other cells or at file level; cell keys spelled '/cells/<name>' (names starting with letters of 'cells/'); arguments equal to defaults left out; the file addressed through a symbolic link to its directory; the cells written by two calls (the second in append mode); names with a leading or trailing blank beside the same name without it; per-cell tables out of order (inside rows only, or completely) with ensure_sorted=True."
 )
 ASSUMPTIONS = ["per-cell pixel tables are sorted by (bin1_id, bin2_id) as create_scool documents"]
 
@@ -47,6 +47,10 @@ def cases(draw):
             "count_dtype": draw(st.sampled_from([None, None, "float64", "int64"])),
             "key_form": draw(st.sampled_from(["plain", "plain", "listing"])),
             # per-cell tables out of order (only inside rows, or completely) together with ensure_sorted=True
+            # the file is addressed through a symbolic link to its directory
+            "symlinked": draw(st.integers(0, 4)) == 0,
+            # history: the cells are written in two calls, the second one in append mode
+            "two_batches": draw(st.integers(0, 4)) == 0,
             "unsorted": draw(st.sampled_from([None, None, "rows", "full"])), "unsorted_seed": draw(st.integers(0, 2**16))}
 
 
@@ -107,6 +111,14 @@ def check_scool(case, ctx: Ctx):
     if case.get("key_form") == "listing" and isinstance(bins_arg, dict):
         bins_arg = {kf(nm): v for nm, v in bins_arg.items()}
     path = ctx.tmp(".scool")
+    linkdir = None
+    if case.get("symlinked") and not case.get("prior"):
+        import os
+
+        linkdir = ctx.tmpdir()
+        os.makedirs(os.path.join(linkdir, "real"))
+        os.symlink(os.path.join(linkdir, "real"), os.path.join(linkdir, "via_link"))
+        path = os.path.join(linkdir, "via_link", "cells.scool")
     kw = {}
     cdt = case.get("count_dtype")
     if cdt:
@@ -137,7 +149,18 @@ def check_scool(case, ctx: Ctx):
             okw.pop("ordered")
             if symmetric:
                 okw.pop("symmetric_upper")
-        call("create_scool", cooler.create_scool, path, bins_arg, pixels_arg, h5opts={"compression": None}, **okw, **kw)
+        two = bool(case.get("two_batches")) and len(pixels_arg) >= 2 and not case.get("prior")
+        if two:
+            keys_ = list(pixels_arg)
+            first_keys = keys_[: len(keys_) // 2]
+            b1 = {k_: pixels_arg[k_] for k_ in first_keys}
+            b2 = {k_: pixels_arg[k_] for k_ in keys_ if k_ not in b1}
+            ba1 = {k_: bins_arg[k_] for k_ in b1} if isinstance(bins_arg, dict) else bins_arg
+            ba2 = {k_: bins_arg[k_] for k_ in b2} if isinstance(bins_arg, dict) else bins_arg
+            call("create_scool (first batch)", cooler.create_scool, path, ba1, b1, h5opts={"compression": None}, **okw, **kw)
+            call("create_scool (second batch, mode='a')", cooler.create_scool, path, ba2, b2, h5opts={"compression": None}, mode="a", **okw, **kw)
+        else:
+            call("create_scool", cooler.create_scool, path, bins_arg, pixels_arg, h5opts={"compression": None}, **okw, **kw)
         check(call("is_scool_file", is_scool_file, path), "file is not recognised as a single-cell file")
         listing = call("list_scool_cells", list_scool_cells, path)
         check(sorted(listing) == sorted("/cells/" + nm for nm in cells),
@@ -148,7 +171,8 @@ def check_scool(case, ctx: Ctx):
         check(sorted(list_coolers(path)) == sorted(listing), "list_coolers and list_scool_cells disagree")
         idx = {"count": 2, "x": 3}
         with h5py.File(path, "r") as f:
-            check(int(f.attrs["ncells"]) == len(cells) and int(f.attrs["nbins"]) == n and int(f.attrs["nchroms"]) == len(bt["names"]),
+            # (after a second call in append mode the ncells attribute describes that call only: not judged then)
+            check((two or int(f.attrs["ncells"]) == len(cells)) and int(f.attrs["nbins"]) == n and int(f.attrs["nchroms"]) == len(bt["names"]),
                   f"root attributes ncells/nbins/nchroms = {f.attrs.get('ncells')}/{f.attrs.get('nbins')}/{f.attrs.get('nchroms')}")
             root_addr = {k: h5py.h5o.get_info(f["bins"][k].id).addr for k in ("chrom", "start", "end")}
             for nm in cells:
@@ -156,6 +180,8 @@ def check_scool(case, ctx: Ctx):
                 probs = schema.validate(g)
                 check(not probs, lambda: f"cell {nm!r} violates the schema: {probs[:3]}")
                 for k in ("chrom", "start", "end"):
+                    if two:
+                        break       # (a second call in append mode rewrites the file-level table: sharing across calls is not judged)
                     check(h5py.h5o.get_info(g["bins"][k].id).addr == root_addr[k],
                           f"cell {nm!r}: bins/{k} is not the shared root object (bin table stored more than once)")
         for nm, rows in cells.items():
@@ -198,12 +224,14 @@ def check_scool(case, ctx: Ctx):
                 check("late" not in f["bins"], f"a bin column stored in cell {first!r} appeared in the file-level bin table")
     finally:
         ctx.clean(path)
+        if linkdir:
+            ctx.clean(linkdir)
     distinct = {str(v) for v in cells.values() if v}
     ctx.record(case, len(distinct) >= 2, ["scool", f"cells={len(cells)}", "bins=" + case["bins_form"], "px=" + case["px_form"],
                                           "has-empty-cell" if any(not v for v in cells.values()) else "no-empty-cell",
                                           "natsort-differs" if sorted(cells) != sorted(cells, key=_natkey) else "natsort-same",
                                           "prior=" + str(case.get("prior")), "count=" + str(case.get("count_dtype")),
-                                          "unsorted=" + str(case.get("unsorted")), "blank-edged-name" if any(nm != nm.strip() for nm in cells) else "plain-names"])
+                                          "unsorted=" + str(case.get("unsorted")), "via-symlink" if linkdir else "plain-path", "two-batches" if case.get("two_batches") and len(cells) >= 2 and not case.get("prior") else "one-call", "blank-edged-name" if any(nm != nm.strip() for nm in cells) else "plain-names"])
 
 
 CHECKS = {"scool": check_scool}
